@@ -151,6 +151,62 @@ pub fn position_programs() -> Vec<String> {
     out
 }
 
+/// thorough: every construct nested in the hole of every other construct, in every position
+pub fn nested_position_programs() -> Vec<String> {
+    let inner: &[&str] = &[
+        "(if x then 1 else 2)",
+        "`a{x}b`",
+        "(7 // 2)",
+        "0b11",
+        "(x :: any)",
+        "(function(a: number): number return a end)(1)",
+        "(function() local v = 1 v += 1 return v end)()",
+        "(function() for i = 1, 2 do if i == 1 then continue end return i end end)()",
+        "(function() const c = 5 return c end)()",
+        "(@native function() return 1 end)()",
+    ];
+    let outer: &[&str] = &[
+        "(if $ then 1 else 2)",
+        "(if x then $ else 2)",
+        "(if x then 1 elseif $ then 2 else $)",
+        "`a{$}b`",
+        "`{$}{$}`",
+        "($ // 2)",
+        "(2 // $)",
+        "($ :: any)",
+        "(function(a: number): number return $ end)(1)",
+        "(function() local v = 1 v += $ return v end)()",
+        "(function() local v = {} v[$] //= $ return v end)()",
+        "(function() for i = 1, 2 do if i == $ then continue end return i end end)()",
+        "(function() const c = $ return c end)()",
+        "(@native function() return $ end)()",
+    ];
+    let positions: &[&str] = &[
+        "return @",
+        "return {[@] = @}",
+        "E1(1, @)",
+        "if nil then elseif @ then E1(1) end",
+        "repeat local z = 1 until @",
+        "for i = 1, @ do break end",
+        "for k in EI(next), {}, @ do end",
+        "local v: typeof(@) = 1\nreturn v",
+        "t[@] += 1\nreturn 1",
+        "return `{@}`",
+        "local o = {}\nfunction o:m() return @ end\nreturn o:m()",
+        "for i = 1, 2 do if i == 1 then continue end E1(@) end\nreturn 1",
+    ];
+    let mut out = Vec::new();
+    for o in outer {
+        for i in inner {
+            let c = o.replace('$', i);
+            for p in positions {
+                out.push(format!("{}{}\n", u::LPRELUDE, p.replace('@', &c)));
+            }
+        }
+    }
+    out
+}
+
 struct SeedOut {
     states: u64,
     transitions: u64,
@@ -298,6 +354,9 @@ pub fn run(tier: Tier) -> Report {
     ];
     let mut seeds: Vec<String> = c06::seeds(tier).into_iter().map(|s| s.code).collect();
     seeds.extend(position_programs());
+    if tier == Tier::Thorough {
+        seeds.extend(nested_position_programs());
+    }
     let results: Vec<SeedOut> = seeds.par_iter().map(|s| run_seed(s, tier)).collect();
     let mut closed = 0u64;
     let n = results.len();
